@@ -22,8 +22,8 @@ func init() {
 		level: "exploration",
 		rule: "for ~40 (quick: 14) valid specifications in two layouts: EVERY single-token deletion, EVERY insertion and replacement by each of the 22 token kinds, and EVERY truncation, at every position; plus stray characters (# % & ' ~ ` etc.), lone @ $ \", unterminated string / pattern / comment at every token gap. " +
 			"For each text that is no longer a specification the reference reader gives the first offending element; the error text of spec.Parse, ebnf ast.Parse and Parser.Parse (and of the CLI for a sample) must contain <file>:<line>:<col> of exactly that element; for a text that merely ends early it must not contain the position of any token present; " +
-			"replacing everything after the offending element by 4 different tails must not change the message. non-trivial = offending element is not the first token; distinct by text.",
-		assumptions: []string{"first offending element per the reference reader R1 (greedy recursive descent = LR correct-prefix behaviour, cross-validated by C04 on all sequences to length 9/12)"},
+			"replacing everything after the offending element by 4 different tails must not change the message. Bytes that are not UTF-8 (7 forms) after 15 kinds of separator (line breaks without indentation, comments spanning lines ...) at every token gap: the error must carry line:column of the first such byte. The same single-token edits after an EARLIER well-formedness defect (an unknown $NAME): the position of the first offending token must still be reported. non-trivial = offending element is not the first token; distinct by text.",
+		assumptions: []string{"a text that has a syntax error is 'rejected for' it even when an earlier well-formedness defect (unknown $NAME) is present, as the unchanged spec.Parse does (it collects such defects and goes on); only spec.Parse, the CLI's entry point, is held to this, and other diagnostics may accompany the position", "first offending element per the reference reader R1 (greedy recursive descent = LR correct-prefix behaviour, cross-validated by C04 on all sequences to length 9/12)"},
 		floorQuick:  10000, floorThorough: 200000,
 		run: runC20,
 	})
@@ -50,6 +50,9 @@ var parseEntries = []parseEntry{
 
 var kindSample = map[string]string{"=": "=", ";": ";", "|": "|", "(": "(", ")": ")", "[": "[", "]": "]", "{": "{", "}": "}", "{{": "{{", "}}": "}}", "<": "<", ">": ">",
 	"grammar": "grammar", "@left": "@left", "@right": "@right", "@none": "@none", "IDENT": "zz", "TOKEN": "ZZ", "STRING": `"zz"`, "REGEX": `/zz/`, "PREDEF": "$ZZ"}
+
+// c20Double is set while the texts carry a second, earlier defect of another kind (see runC20).
+var c20Double bool
 
 // c20Check runs all entry points on text and compares with the reference.
 func c20Check(c *ctx, name, text string, tailTest bool) {
@@ -87,7 +90,13 @@ func c20Check(c *ctx, name, text string, tailTest bool) {
 	c.count("texts_with_"+kind+"_error", 1)
 	want := fmt.Sprintf("%s:%d:%d", fileName, wantLn, wantCol)
 	msgs := map[string]string{}
-	for _, e := range parseEntries {
+	entries := parseEntries
+	if c20Double {
+		// with an earlier well-formedness defect only the tool's own entry point is held to the position of the syntax
+		// error: the tree builder legitimately stops at the first callback error (C18), before the syntax error is reached
+		entries = parseEntries[:1]
+	}
+	for _, e := range entries {
 		var err error
 		pv, _ := safely(func() { err = e.run(text) })
 		if pv != nil {
@@ -111,7 +120,7 @@ func c20Check(c *ctx, name, text string, tailTest bool) {
 			}
 			continue
 		}
-		if !strings.Contains(msg, want) || positionsOtherThan(msg, wantLn, wantCol) {
+		if !strings.Contains(msg, want) || (!c20Double && positionsOtherThan(msg, wantLn, wantCol)) {
 			c.violate(violation{Case: name, Input: text, Observed: e.name + ": " + msg, Expected: describeWant(kind, want, rd)})
 		}
 	}
@@ -162,6 +171,52 @@ func c20Check(c *ctx, name, text string, tailTest bool) {
 		if err.Error() != base {
 			c.violate(violation{Case: name + "/tail", Input: map[string]string{"prefix_through_offending_element": prefix, "tail": tail},
 				Observed: err.Error(), Expected: "same message as with another tail: " + base})
+		}
+	}
+}
+
+// c20Invalid: a byte sequence that is not UTF-8 placed where everything before it is a viable prefix followed by a
+// separator: it is the first offending element, and its line and column are those of its first byte.
+func c20Invalid(c *ctx, name, prefix, sep, bad, tail string) {
+	for _, r := range prefix {
+		if r > 0x7E {
+			return
+		}
+	}
+	rd := refRead(prefix)
+	if rd.Scan.Masked || rd.Scan.Err || (rd.ErrAt >= 0 && rd.ErrAt < len(rd.Scan.Toks)) {
+		return // the prefix itself already has an offending element
+	}
+	c.eval()
+	before := prefix + sep
+	line, col := 1, 1
+	for _, r := range before {
+		if r == '\n' {
+			line++
+			col = 1
+		} else {
+			col++
+		}
+	}
+	text := before + bad + tail
+	want := fmt.Sprintf("%s:%d:%d", fileName, line, col)
+	if line > 1 {
+		c.nontrivial(text)
+	}
+	c.count("texts_with_invalid_utf8", 1)
+	for _, e := range parseEntries {
+		var err error
+		pv, _ := safely(func() { err = e.run(text) })
+		if pv != nil {
+			c.inconclusive("panic (C14's business)")
+			continue
+		}
+		if err == nil {
+			c.violate(violation{Case: name, Input: text, Observed: e.name + " accepted the text", Expected: "rejected: bytes that are not UTF-8 at " + want})
+			continue
+		}
+		if msg := err.Error(); !strings.Contains(msg, want) || positionsOtherThan(msg, line, col) {
+			c.violate(violation{Case: name, Input: text, Observed: e.name + ": " + msg, Expected: "an error at " + want + " (the first byte that is not UTF-8; everything before it is a viable prefix)"})
 		}
 	}
 }
@@ -252,6 +307,73 @@ func runC20(c *ctx) {
 			}
 		}
 	}
+	// bytes that are not UTF-8, after every kind of separator (line breaks without indentation, inside comments that span
+	// lines, after blanks), at every token gap of a few bases
+	{
+		seps := []string{" ", "\n", "\n\n", "\n\n\n", "\r\n", "\n ", "\n\t", " \n", "// c\n", "/* c */", "/* c\n", "/* a\n b\n", "/*\n\n\n", "// c\n\n", " /* x */\n"}
+		bads := []string{"\xff", "\xc3", "\xe2\x82", "\xc0\xaf", "\xed\xa0\x80", "\xf8", "\x80"}
+		tails := []string{"", "\n", " ;\n", "\xff\n x = ;"}
+		for bi, g := range c20Bases(c) {
+			if bi >= c.n(3, 12) {
+				break
+			}
+			toks := specTokens(g, nil)
+			for pos := 0; pos <= len(toks); pos++ {
+				prefix := layoutTokens(toks[:pos], nil, layout{})
+				for si, sep := range seps {
+					if pos == 0 && strings.TrimSpace(sep) == "" && sep != "" {
+						// fine: leading blanks
+					}
+					for k, bad := range bads {
+						if c.mine() {
+							c20Invalid(c, fmt.Sprintf("invalid-utf8/base%d/%d", bi, pos), prefix, sep, bad, tails[(pos+si+k)%len(tails)])
+						}
+					}
+				}
+			}
+		}
+	}
+	// a second, earlier fault of another kind (an unknown predefined name: a well-formedness defect, collected while
+	// parsing) must not hide or replace the position of the first offending token
+	{
+		c20Double = true
+		rr := c.rng("double")
+		for bi, g := range c20Bases(c) {
+			if bi >= c.n(4, 16) {
+				break
+			}
+			toks := specTokens(g, nil)
+			if len(toks) < 3 {
+				continue
+			}
+			// after "grammar NAME [;]"
+			at := 2
+			if toks[2].Kind == ";" {
+				at = 3
+			}
+			decl := []gtok{{"TOKEN", "ZQ"}, {"=", "="}, {"PREDEF", "$NOPE"}, {";", ";"}}
+			withDecl := append(append(append([]gtok{}, toks[:at]...), decl...), toks[at:]...)
+			name := fmt.Sprintf("double/base%d", bi)
+			for pos := at + len(decl); pos <= len(withDecl); pos++ {
+				if c.mine() {
+					c20Check(c, name+"/trunc", layoutTokens(withDecl[:pos], nil, layout{finalNL: true}), false)
+				}
+				for _, k := range []string{")", "]", "}}", ">", "=", "@left", "grammar", "REGEX", "PREDEF", ";"} {
+					if !c.mine() {
+						continue
+					}
+					m := append(append(append([]gtok{}, withDecl[:pos]...), gtok{k, kindSample[k]}), withDecl[pos:]...)
+					c20Check(c, name+"/ins", layoutTokens(m, nil, layout{finalNL: true}), false)
+				}
+				if c.mine() {
+					s := pick(rr, []string{"#", "%", "'", "\"abc", "/* open", "@lef"})
+					m := append(append(append([]gtok{}, withDecl[:pos]...), gtok{"STRAY", s}), withDecl[pos:]...)
+					c20Check(c, name+"/stray", layoutTokens(m, nil, layout{finalNL: true}), false)
+				}
+			}
+		}
+	}
+	c20Double = false
 	c.exhaustive("every_single_token_edit_and_truncation_of_each_base", true)
 	// CLI sample
 	if c.shard == 0 {
